@@ -2,7 +2,7 @@ LEVEL = "other"
 MANIFEST = {
     "engine": "symrun",
     "category": "other",
-    "text": "Decided part of C01 (the deterministic half, conditional on the drawn wave vectors): the real generator output is linear in the iid standard-normal amplitudes, so over the amplitudes E field = 0, Var field(x) = var exactly at every x for every set of wave vectors, Cov(field(x), field(y)) = var/N sum_j cos(k_j.(x-y)) (RandMeth), Var = sum_j S(|k_j|) prod(delta_k) (Fourier: the Riemann sum of the spectrum, i.e. the discretisation-error form), nugget noise adds exactly nugget; the sphere sampler returns unit vectors; the radius sampler is handed the model's own spectral_rad_pdf/cdf/ppf resp. ln_spectral_rad_pdf; positions reach the generator only through model.isometrize. All for symbolic positions, wave vectors, variances (values unbounded), dims 1-3, N = 1, 2 modes (sum over modes proved for all N in C15). NOT decided by this technique: that the sampled radii follow the spectral pdf (scipy rvs / emcee), Bochner's theorem (E_k cos(k.h) = C(h)/var, with C04's Fourier pair), the Monte-Carlo rate in N, anything quantified over seeds -- the larger half of the statement; hence category other.",
+    "text": "Decided part of C01 (the deterministic half, conditional on the drawn wave vectors): the real generator output is linear in the iid standard-normal amplitudes, so over the amplitudes E field = 0, Var field(x) = var exactly at every x for every set of wave vectors, Cov(field(x), field(y)) = var/N sum_j cos(k_j.(x-y)) (RandMeth), Var = sum_j S(|k_j|) prod(delta_k) (Fourier: the Riemann sum of the spectrum, i.e. the discretisation-error form), nugget noise adds exactly nugget; the sphere sampler returns unit vectors; the radius sampler is handed the model's own spectral_rad_pdf/cdf/ppf resp. ln_spectral_rad_pdf; positions reach the generator only through model.isometrize. All for symbolic positions, wave vectors, variances (values unbounded), dims 1-3, N = 1, 2 modes (sum over modes proved for all N in C15). NOT decided by this technique: that the sampled radii follow the spectral pdf (scipy rvs / emcee), Bochner's theorem (E_k cos(k.h) = C(h)/var, with C04's Fourier pair), the Monte-Carlo rate in N, anything quantified over seeds -- the larger half of the statement; hence category other. Added after the seeding rounds: with `point_volumes` the generated field is rescaled by sqrt(scaled_var / sill) (unchanged for no_scaling, documented factor for coarse graining).",
     "level_note": "ghost RNG (T5) and kernel postcondition stubs as in C11; amplitudes iid N(0,1) assumed (numpy normal); coefficients extracted by the mechanical derivative table; spectral density >= 0 assumed where a square root of it is taken (C02); distributional core of C01: not applicable to contract-based verification.",
     "technique": "contract-based deductive verification: symbolic execution of the real Python methods against sidecar postconditions from the docstrings, VCs discharged by z3/cvc5 with instantiated axiom hints",
 }
